@@ -100,11 +100,23 @@ def write_if_changed(path, content):
     return True
 
 
+MEM_LIMIT = int(os.environ.get("VERIF_MEM_LIMIT_GB", "12")) << 30   # address-space cap for every child (coqc, ocaml ...)
+
+
+def _limit_child():
+    import resource
+    try:
+        resource.setrlimit(resource.RLIMIT_AS, (MEM_LIMIT, MEM_LIMIT))
+    except (ValueError, OSError):
+        pass
+
+
 def run(cmd, timeout=900, cwd=None, env=None):
+    """run a child under a wall-clock timeout and an address-space cap (a runaway coqc must not take the machine)"""
     t0 = time.time()
     try:
         p = subprocess.run(cmd, cwd=cwd, env=env, stdout=subprocess.PIPE, stderr=subprocess.STDOUT,
-                           timeout=timeout, text=True, errors="replace")
+                           timeout=timeout, text=True, errors="replace", preexec_fn=_limit_child)
         return p.returncode, p.stdout, time.time() - t0
     except subprocess.TimeoutExpired as e:
         out = e.stdout if isinstance(e.stdout, str) else (e.stdout or b"").decode("utf-8", "replace")
